@@ -636,16 +636,35 @@ Proof.
     rewrite Z.mod_small by lia. apply good_result_big; lia.
 Qed.
 
+(* the clearing loop of the big-path Lsh is "mod 2^w" on non-negative values *)
+Lemma lsh_clear_nonneg w v : 0 <= w -> 0 <= v -> lsh_clear w v = v mod 2 ^ w.
+Proof.
+  intros Hw Hv. unfold lsh_clear, bitlen_abs.
+  destruct (v =? 0) eqn:E0.
+  - apply Z.eqb_eq in E0. subst v.
+    assert (E : (0 <=? w) = true) by (apply Z.leb_le; lia). rewrite E.
+    rewrite Z.mod_0_l; [reflexivity|]. pose proof (pow2_pos w Hw). lia.
+  - apply Z.eqb_neq in E0. assert (Hpos : 0 < v) by lia.
+    rewrite Z.abs_eq by lia.
+    pose proof (Z.log2_spec v Hpos) as [_ Hlt]. pose proof (Z.log2_nonneg v) as Hl0.
+    replace (Z.succ (Z.log2 v)) with (Z.log2 v + 1) in Hlt by lia.
+    destruct (Z.log2 v + 1 <=? w) eqn:E; [apply Z.leb_le in E|apply Z.leb_gt in E].
+    + symmetry. apply Z.mod_small. pose proof (pow2_le (Z.log2 v + 1) w ltac:(lia)). lia.
+    + rewrite (Z.mod_small v (2 ^ (Z.log2 v + 1))) by lia. lia.
+Qed.
+
 Theorem fold_big_lsh k n ml tr x y A cnt :
-  k <> KBool -> tk tr <> KBool -> 64 < n -> big x = A -> u64 (Int64 y) = cnt -> 0 <= cnt ->
+  k <> KBool -> tk tr <> KBool -> 64 < n -> big x = A -> 0 <= A -> u64 (Int64 y) = cnt -> 0 <= cnt ->
   exists c, evalConst OLsh (CI (mkT k n ml) x) (CI tr y) = Ok c /\
     good c k n (snd (circuit_sem OLsh k n A cnt)).
 Proof.
-  intros Hk Hkr Hn HbA Hcnt Hc0. unfold evalConst, resultTypeCC.
+  intros Hk Hkr Hn HbA HA0 Hcnt Hc0. unfold evalConst, resultTypeCC.
   assert (Hil : intlike k && intlike (tk tr) = true) by (destruct k, (tk tr); try congruence; reflexivity).
   assert (Hs : isSmall (mkM n 0) = false) by (apply Z.leb_gt; simpl; lia).
   assert (Hp : 0 < 2 ^ n) by (apply pow2_pos; lia).
-  simpl. rewrite Hil. simpl. rewrite (mNew_ok n) by lia. simpl. unfold mLsh. rewrite Hs, Hcnt, HbA. simpl.
+  assert (Hpc : 0 < 2 ^ cnt) by (apply pow2_pos; lia).
+  simpl. rewrite Hil. simpl. rewrite (mNew_ok n) by lia. simpl. unfold mLsh. rewrite Hs, Hcnt, HbA. simpl mbits.
+  rewrite lsh_clear_nonneg by nia. simpl.
   eexists; split; [reflexivity|]. unfold circuit_sem, instr_sem. simpl snd.
   apply good_result_big; [lia|apply Z.mod_pos_bound; lia|lia].
 Qed.
@@ -927,7 +946,7 @@ Proof.
   - destruct (count_int64 b H4) as [Hb0 [Hlit Hcnt]].
     destruct op; try discriminate Esh; simpl in H5.
     + destruct (fold_big_lsh k n (tmv n a) (mkT KInt (cont b) (blen b)) (rep n a) (mkM (cont b) b)
-                  (a mod 2 ^ n) b Hk ltac:(simpl; congruence) Hn64 Hba Hcnt Hb0) as [c [Hc Hg]].
+                  (a mod 2 ^ n) b Hk ltac:(simpl; congruence) Hn64 Hba (proj1 HpA) Hcnt Hb0) as [c [Hc Hg]].
       do 3 eexists. split; [exact Hl|]. split; [exact Hlit|]. split; [exact Hc|]. exact Hg.
     + apply Z.leb_le in H5.
       assert (Hbound : a mod 2 ^ n < nonneg_bound k n).
